@@ -690,7 +690,8 @@ func (v *Visitor) resolveSkipArrayItem(fieldRef int, fieldName string, enclosing
 			shouldIncludeDeprecated := false
 
 			if includeDeprecatedVariableName != "" {
-				shouldIncludeDeprecated = ctx.Variables.GetBool(includeDeprecatedVariableName)
+				// the operation carries the remapped variable name, ctx.Variables the client's
+				shouldIncludeDeprecated = ctx.VariablesView().Get(includeDeprecatedVariableName).GetBool()
 			}
 
 			isDeprecated := itemValue.GetBool("isDeprecated")
